@@ -31,7 +31,7 @@ func baseGen(r *rand.Rand, k int) GenCfg {
 	n := len(w)
 	g := GenCfg{Weights: w, Epochs: 1, EpochEvents: 10*n + r.Intn(8*n), MaxParents: 2 + r.Intn(n), ForkProb: 0.15,
 		LazyFrame: 0.03, Lag: 0.1, Partition: r.Intn(3) == 0, OldParent: 0.15,
-		NapProb: []float64{0, 0.04, 0.08}[r.Intn(3)], SiblingForks: 0.4}
+		NapProb: []float64{0, 0.04, 0.08}[r.Intn(3)], SiblingForks: 0.4, LateJoin: []float64{0, 0.2, 0.35}[r.Intn(3)]}
 	if g.MaxParents < 2 {
 		g.MaxParents = 2
 	}
